@@ -17,7 +17,9 @@ CONSTANTS ProcScoped, Emit
 
 Slots == {"function", "class", "constant", "global-var", "static-prop", "static-local", "ini", "ob-stack", "output-flag",
           "include-once", "autoloader", "error-handler", "exception-handler", "shutdown-fn", "timezone",
-          "locale", "superglobal", "env"}
+          "locale", "superglobal", "env",
+          \* lookup memos: a name resolved by one VM (also through another letter case) must not resolve on another
+          "class-case", "interface", "trait", "included-file"}
 ProcessNatured == {"env"}
 
 VARIABLES proc, vmA, vmB, phase, touched, observed, obs
@@ -33,8 +35,11 @@ RunA == /\ phase = "start" /\ phase' = "ranA"
            ELSE vmA' = [vmA EXCEPT ![touched] = "A"] /\ UNCHANGED proc
         /\ UNCHANGED <<vmB, touched, observed, obs>>
 \* what an observation depends on: its own slot, the output path (a pending output buffer swallows what B
-\* prints) and, for anything that looks a class up, the autoloaders
-Reads(s) == {s, "ob-stack"} \cup (IF s \in {"class", "autoloader"} THEN {"autoloader"} ELSE {})
+\* prints), for anything that looks a class, interface or trait up, the autoloaders, and for an include the file cache
+\* include / include_once / require share one store: the cache of files already run (node/include_statement.go)
+FileCache == {"include-once", "included-file"}
+Reads(s) == {s, "ob-stack"} \cup (IF s \in {"class", "autoloader", "class-case", "interface", "trait"} THEN {"autoloader"} ELSE {})
+                            \cup (IF s \in FileCache THEN FileCache ELSE {})
 Sees(s) == IF Scope(s) = "proc" THEN proc[s] ELSE vmB[s]
 RunB == /\ phase = "ranA" /\ phase' = "ranB"
         /\ obs' = IF \E s \in Reads(observed) : Sees(s) # "init" THEN "A" ELSE "init"
